@@ -33,6 +33,8 @@ pub enum Finish {
     Drop,
     /// panic while holding the request (real-thread engines only)
     Panic,
+    /// `into_writer()` dropped without writing anything: the application chose to send nothing
+    WriterUnused,
 }
 
 #[derive(Clone, Debug, PartialEq, Eq, Serialize, Deserialize)]
@@ -286,6 +288,16 @@ pub fn expect(case: &ConvCase) -> Expected {
                         ExpMsg { req_idx: i, status: 101, head: false, rid: None, body: Some(vec![]), raw_after: Some(upgrade_reply(rq.id, n)), interim_before: interim }
                     }
                     Finish::Drop | Finish::Panic => ExpMsg { req_idx: i, status: 500, head: rq.is_head(), rid: None, body: Some(vec![]), raw_after: None, interim_before: interim },
+                    Finish::WriterUnused => {
+                        // nothing is sent for this request
+                        let ends = m.ends_connection;
+                        models.push(m);
+                        if ends {
+                            ends_after = Some(i);
+                            break;
+                        }
+                        continue;
+                    }
                 };
                 msgs.push(msg);
             }
